@@ -50,13 +50,21 @@ Next == cnt < MaxSteps /\ \E T \in Types : \E m \in Msgs(T) : Step(m)
 Spec == Init /\ [][Next]_vars
 View == <<bs, issued, cnt>>
 
-\* generation: one type per step, mostly accepted messages
+\* generation: one type per step, mostly accepted messages; one step in five a NEAR MISS -- a Put or Take
+\* that is covered by the balance and fails only because the product or quotient by 10^6 needs more than
+\* 34 digits (exactly the messages a rounding multiply would let through)
+Covered(m) ==
+  CASE m.type = "Put"  -> Amount(m.x, TRUE).ok /\ Ge(bs.bal[m.a][m.b].t, Amount(m.x, TRUE).d)
+    [] m.type = "Take" -> TokenAmount(m.n).ok /\ Ge(bs.tok[m.a], TokenAmount(m.n).d)
+    [] OTHER -> FALSE
 GenNext ==
   \* (the set depends on the state: TLC evaluates a constant RandomSubset once per run)
-  \E T \in RandomSubset(1, {X \in Types : cnt >= 0 /\ (X \in {"Put", "Take", "Retire", "Cancel"} => \E m \in Msgs(X) : Apply(bs, m).ok)} \cup {"Mint"}) :
+  \E T \in RandomSubset(1, {X \in Types : cnt >= 0 /\ (X \in {"Put", "Take", "Retire", "Cancel"} => \E m \in Msgs(X) : Apply(bs, m).ok \/ Covered(m))} \cup {"Mint"}) :
     LET ms   == Msgs(T)
         good == {m \in ms : Apply(bs, m).ok}
-        pick == IF good # {} /\ RandomElement(1..5) > 1 THEN good ELSE ms
+        near == {m \in ms : ~Apply(bs, m).ok /\ Covered(m)}
+        k    == RandomElement(1..10)
+        pick == IF near # {} /\ k <= 3 THEN near ELSE IF good # {} /\ k <= 9 THEN good ELSE ms
     IN \E m \in RandomSubset(1, pick) : Step(m)
 
 \* ---- the properties on the specification
